@@ -130,6 +130,10 @@ pub struct StepRecord {
     /// per group (logical index) epoch/state of the acting node before and after
     pub pre_state: BTreeMap<usize, (u64, String)>,
     pub post_state: BTreeMap<usize, (u64, String)>,
+    /// storage ticks (statement boundaries in mdk-sqlite-storage) crossed by this step
+    pub ticks: u64,
+    /// simulated process death happened inside this step: (tick index, label)
+    pub crashed_at: Option<(u64, String)>,
 }
 
 #[derive(Debug, Clone, Serialize)]
@@ -181,6 +185,11 @@ pub struct World {
     pub prev_view: NodeView,
     /// events that had taken effect at the acting node before the last executed step
     pub prev_effective: BTreeSet<EvRef>,
+    /// crash injection: (step id, tick index) at which the acting node's process dies
+    pub arm_crash: Option<(u32, u64)>,
+    /// count storage ticks per step (tick hook installed around every step)
+    pub count_ticks: bool,
+    pub last_crash: Option<(u32, usize, u64, String)>,
 }
 
 #[derive(Debug, Clone, Serialize, PartialEq, Eq)]
@@ -254,6 +263,9 @@ impl World {
             sensitive: BTreeSet::new(),
             prev_view: NodeView::default(),
             prev_effective: BTreeSet::new(),
+            arm_crash: None,
+            count_ticks: false,
+            last_crash: None,
         }
     }
 
@@ -465,13 +477,75 @@ impl World {
         seam::reseed(self.seed, step.id as u64, node as u64);
         let rb_before = self.nodes[node].rollbacks.infos.lock().unwrap().len();
 
+        // ---- storage tick hook: counting and crash injection --------------------------------
+        let tick_state = std::rc::Rc::new(std::cell::RefCell::new((0u64, None::<String>)));
+        let armed_k = match self.arm_crash {
+            Some((sid, k)) if sid == step.id => Some(k),
+            _ => None,
+        };
+        let hook_on = (self.count_ticks || armed_k.is_some()) && self.nodes[node].cfg.backend.is_sqlite();
+        if hook_on {
+            let ts = tick_state.clone();
+            let dir = self.nodes[node].dir.clone();
+            let image = self.nodes[node].dir.with_extension("crashimage");
+            mdk_sqlite_storage::verif::set_thread_hook(Some(Box::new(move |p| {
+                use mdk_sqlite_storage::verif::Point;
+                if matches!(p, Point::Lock) {
+                    return;
+                }
+                let n = {
+                    let mut t = ts.borrow_mut();
+                    t.0 += 1;
+                    t.0
+                };
+                if Some(n) == armed_k {
+                    // process death: what the OS still holds is the directory as it is now
+                    let _ = std::fs::remove_dir_all(&image);
+                    copy_dir(&dir, &image);
+                    ts.borrow_mut().1 = Some(format!("{p:?}"));
+                    std::panic::panic_any(SimulatedCrash);
+                }
+            })));
+        }
         let res = std::panic::catch_unwind(std::panic::AssertUnwindSafe(|| self.exec_inner(step, &pre_state)));
+        if hook_on {
+            mdk_sqlite_storage::verif::set_thread_hook(None);
+        }
+        let (ticks, crash_label) = {
+            let t = tick_state.borrow();
+            (t.0, t.1.clone())
+        };
+        let mut crashed = None;
         let mut outcome = match res {
             Ok(o) => o,
             Err(p) => {
-                let mut o = Outcome::new("panic", format!("PANIC: {}", seam::panic_msg(&p)));
-                o.panicked = true;
-                o
+                if p.downcast_ref::<SimulatedCrash>().is_some() {
+                    let label = crash_label.clone().unwrap_or_default();
+                    crashed = Some((armed_k.unwrap_or(0), label.clone()));
+                    self.fault("crash");
+                    // the process is gone: drop the MDK (closes the abandoned connection), put the
+                    // image taken at the tick in place of the directory, start a new process
+                    self.nodes[node].mdk = None;
+                    let dir = self.nodes[node].dir.clone();
+                    let image = dir.with_extension("crashimage");
+                    let journal = image.join("mdk.sqlite-journal").exists() || image.join("mdk.sqlite-wal").exists();
+                    if journal {
+                        self.probe("crash_image_with_hot_journal");
+                    }
+                    let _ = std::fs::remove_dir_all(&dir);
+                    let _ = std::fs::rename(&image, &dir);
+                    self.set_clock_for(node);
+                    let reopened = self.nodes[node].open();
+                    self.last_crash = Some((step.id, node, armed_k.unwrap_or(0), label.clone()));
+                    match reopened {
+                        Ok(()) => Outcome::new("crashed", format!("CRASH at tick {} ({label}); reopened", armed_k.unwrap_or(0))),
+                        Err(e) => Outcome::new("crashed_reopen_failed", format!("CRASH at tick {} ({label}); reopen failed: {e}", armed_k.unwrap_or(0))),
+                    }
+                } else {
+                    let mut o = Outcome::new("panic", format!("PANIC: {}", seam::panic_msg(&p)));
+                    o.panicked = true;
+                    o
+                }
             }
         };
         if outcome.panicked {
@@ -496,8 +570,12 @@ impl World {
         }
         let mut rec = self.record(step, outcome, pre_hash, pre_state);
         rec.rollback = rb_after > rb_before;
+        rec.ticks = ticks;
+        rec.crashed_at = crashed;
         if let Some(last) = self.history.last_mut() {
             last.rollback = rec.rollback;
+            last.ticks = rec.ticks;
+            last.crashed_at = rec.crashed_at.clone();
         }
         rec
     }
@@ -522,6 +600,8 @@ impl World {
             panicked: o.panicked,
             pre_state,
             post_state,
+            ticks: 0,
+            crashed_at: None,
         };
         self.log.push(format!(
             "#{} t={} n{} {:?} -> {} | {}",
@@ -904,4 +984,19 @@ pub fn sha2_32(b: &[u8]) -> [u8; 32] {
     let mut o = [0u8; 32];
     o.copy_from_slice(&d);
     o
+}
+
+/// Marker payload of the unwinding that simulates process death.
+pub struct SimulatedCrash;
+
+pub fn copy_dir(from: &std::path::Path, to: &std::path::Path) {
+    let _ = std::fs::create_dir_all(to);
+    if let Ok(rd) = std::fs::read_dir(from) {
+        for e in rd.flatten() {
+            let p = e.path();
+            if p.is_file() {
+                let _ = std::fs::copy(&p, to.join(e.file_name()));
+            }
+        }
+    }
 }
